@@ -263,7 +263,9 @@ protected:
     } // else, both are inf, forget
   }
 
-  using SlackLink = pre::RangeLinCon2Slack<ModelConverter>;
+  /// The link must read the range constraint of THIS converter's type
+  /// (RangeLinCon2Slack read GetConstraint<LinConRange>(i) also for quadratic ranges)
+  using SlackLink = pre::RangeCon2Slack<ModelConverter, ItemType>;
   SlackLink& GetSlackLink() { return link_rng2slk_; }
 
 private:
